@@ -58,6 +58,29 @@ type Ctx struct {
 	Thorough bool
 
 	dropsArmed *bool
+	injectedCh *[]any // destination channels of the try-sends that were made to find the queue full
+}
+
+// InjectedTo reports how many sends to s were made to find its queue full by
+// the queue-full injection (not all of them end as a drop the router logs: a
+// RESULT is retried).
+func (c *Ctx) InjectedTo(s *Sess) int {
+	if c.injectedCh == nil || s.Rtr == nil {
+		return 0
+	}
+	n := 0
+	want := any(s.Rtr.Send())
+	for _, ch := range *c.injectedCh {
+		if ch == want {
+			n++
+		}
+	}
+	return n
+}
+
+// LossyTo: the router dropped something to s, or was made to find its queue full.
+func LossyTo(c *Ctx, w *World, s *Sess) bool {
+	return DroppedTo(w, s.ID) > 0 || c.InjectedTo(s) > 0
 }
 
 // DisarmDrops ends queue-full injection for the rest of the run ("faults stop").
@@ -170,6 +193,7 @@ func RunOne(t *testing.T, spec Spec) (res *Result) {
 				cfg.KeepLog = spec.KeepLog
 			}
 			dropsArmed := true
+			var injectedCh []any
 			if p.Drops && !simrt.RaceEnabled {
 				dg := NewRand(Mix(spec.SchedSeed, 0xd509))
 				if dg.Intn(4) == 0 {
@@ -188,12 +212,16 @@ func RunOne(t *testing.T, spec Spec) (res *Result) {
 						default:
 							return false
 						}
-						return dg.Intn(per) == 0
+						if dg.Intn(per) != 0 {
+							return false
+						}
+						injectedCh = append(injectedCh, ch)
+						return true
 					}
 				}
 			}
 			s := simrt.New(cfg)
-			c := &Ctx{Spec: spec, Gen: g, S: s, Res: res, Thorough: spec.Tier == "thorough", dropsArmed: &dropsArmed}
+			c := &Ctx{Spec: spec, Gen: g, S: s, Res: res, Thorough: spec.Tier == "thorough", dropsArmed: &dropsArmed, injectedCh: &injectedCh}
 			res.Strategy = cfg.Strategy.String()
 			s.Run(func() { p.Run(c) })
 			res.Steps = s.StepCount()
